@@ -7,8 +7,8 @@ package ed25519_test
 // transcription ref/eddsa (big.Int) and, for signing, crypto/ed25519 as a
 // second independent oracle. Units:
 //
-//	refcheck25519  binds ref/eddsa to RFC 8032 section 7.1 (the vectors in this
-//	               package's rfc8032_test.go), testdata/sign.input.zip,
+//	refcheck25519  binds ref/eddsa to RFC 8032 section 7.1 (the vectors of
+//	               ref/testdata/c05_rfc8032.json), testdata/sign.input.zip,
 //	               testdata/wycheproof_Ed25519.json and crypto/ed25519
 //	sign25519      public key and signature bytes for seeds x messages x contexts
 //	verify25519    three-valued verification oracle on every enumerated alteration
@@ -226,12 +226,56 @@ func c05Bases(v *eddsa.Variant, size int) []c05kit.Base {
 	}
 }
 
+// c05Vec is one RFC 8032 section 7 vector from the fixture
+// $VERIF_DIR/ref/testdata/c05_rfc8032.json (the harness does not use the
+// repository's own test helpers or literals).
+type c05Vec struct {
+	Name, Scheme          string
+	Ph                    bool
+	Sk, Pk, Sig, Msg, Ctx string
+}
+
+func (v c05Vec) bytes(t *testing.T) (sk, pk, sig, msg, ctx []byte) {
+	dec := func(s string) []byte {
+		b, err := hex.DecodeString(s)
+		if err != nil {
+			t.Fatalf("refcheck: bad hex in RFC 8032 fixture: %v", err)
+		}
+		return b
+	}
+	return dec(v.Sk), dec(v.Pk), dec(v.Sig), dec(v.Msg), dec(v.Ctx)
+}
+
+func c05RFCVectors(t *testing.T, curve string) []c05Vec {
+	dir := os.Getenv("VERIF_DIR")
+	if dir == "" {
+		dir = "/verif"
+	}
+	raw, err := os.ReadFile(dir + "/ref/testdata/c05_rfc8032.json")
+	if err != nil {
+		t.Fatalf("refcheck: %v", err)
+	}
+	var f struct {
+		Vectors map[string][]c05Vec `json:"vectors"`
+	}
+	if err := json.Unmarshal(raw, &f); err != nil {
+		t.Fatalf("refcheck: %v", err)
+	}
+	return f.Vectors[curve]
+}
+
 func TestVerifC05_refcheck25519(t *testing.T) {
 	r := verifmc.Start(t, "C05", "refcheck25519")
 	defer r.Finish()
-	r.Rule("reference binding: RFC 8032 7.1-7.3 vectors (rfc8032_test.go), testdata/sign.input.zip lines, Wycheproof Ed25519 file, crypto/ed25519 signing and verification on the verify25519 case alphabet, projective vs affine scalar multiplication")
-	// 1. RFC 8032 vectors shipped in this package's own test file
-	for _, vec := range vectorsEd25519 {
+	r.Rule("reference binding: RFC 8032 7.1-7.3 vectors (fixture ref/testdata/c05_rfc8032.json), testdata/sign.input.zip lines, Wycheproof Ed25519 file, crypto/ed25519 signing and verification on the verify25519 case alphabet, projective vs affine scalar multiplication")
+	// 1. RFC 8032 section 7 vectors (fixture ref/testdata/c05_rfc8032.json)
+	for _, rv := range c05RFCVectors(t, "ed25519") {
+		vec := struct {
+			name                  string
+			ph                    bool
+			sk, pk, sig, msg, ctx []byte
+		}{name: rv.Name, ph: rv.Ph}
+		vec.sk, vec.pk, vec.sig, vec.msg, vec.ctx = rv.bytes(t)
 		v := eddsa.Ed25519
 		switch {
 		case vec.ph:
